@@ -127,13 +127,16 @@ func (s *Sniffer) readStreamOnceWithReadDeadline() error {
 		return nil
 	}
 	close(s.dataReady)
-	s.dataError = err
 
 	var netErr net.Error
 	if errors.As(err, &netErr) && netErr.Timeout() {
 		// Keep behavior consistent with context timeout path in the legacy async read.
+		// The sniff deadline is not an error of the stream: it must not be stored as
+		// dataError, or Read would replay it for ever instead of handing out the
+		// buffer and continuing on the connection.
 		return fmt.Errorf("%w: %w", ErrNotApplicable, context.DeadlineExceeded)
 	}
+	s.dataError = err
 	return err
 }
 
